@@ -43,7 +43,7 @@ pub(crate) fn summarize_results(
     println!("Formula: {formula}");
     println!(
         "Time to model check: {}ms",
-        start_time.elapsed().unwrap().as_millis()
+        start_time.elapsed().unwrap_or_default().as_millis()
     );
     println!("{} results in total", results.approx_cardinality());
     println!("{} unique colors", results.colors().approx_cardinality());
